@@ -12,7 +12,10 @@
 (*     [op |-> "acq", kind |-> "R"|"W", pos |-> stripe]   lock request     *)
 (*     [op |-> "map"]                      Get/Set/Delete/... on the map   *)
 (*     [op |-> "rel", kind, pos]           lock release                    *)
-(* "start", "acq" and "map" are GATES: the hook can hold the goroutine     *)
+(*     [op |-> "reply"]                    the executor has returned; the  *)
+(*                                         reply is serialised afterwards  *)
+(*                                         (as the connection handler does)*)
+(* "start", "acq", "map", "reply" are GATES: the hook can hold the goroutine     *)
 (* there. A release is not a gate (the hook fires after the unlock).       *)
 (* One model step of thread t = the scheduler opens t's current gate and   *)
 (* t runs to its next gate (or returns), performing the releases on the    *)
@@ -65,7 +68,7 @@ Bound == IF Len(Tuples[tup]) <= 2 THEN MaxPre ELSE MaxPre3
 \* would sync.RWMutex let the request through at once?
 Enabled(t) ==
   /\ Unfinished(t)
-  /\ \/ Gate(t).op \in {"start", "map"}
+  /\ \/ Gate(t).op \in {"start", "map", "reply"}
      \/ Gate(t).op = "acq" /\ Gate(t).kind = "R" /\ wm[Gate(t).pos] = 0
      \/ Gate(t).op = "acq" /\ Gate(t).kind = "W" /\ wm[Gate(t).pos] = 0 /\ Readers(Gate(t).pos) = 0
 
